@@ -23,5 +23,5 @@ if len(sys.argv) > 2:
         r = json.loads(line)
         nd = r["st"]["nodes"]
         print(r["step"], json.dumps(r["a"])[:80], r.get("applied"),
-              " ".join("%s:%s%s/L%d/c%d/a%d" % (k, v["role"] if v["up"] else "x", v["term"], len(v["log"]), v["commit"], v["applied"]) for k, v in sorted(nd.items())),
+              " ".join("%s:%s%s/L%d/c%d/a%d/b%d/s%d" % (k, v["role"] if v["up"] else "x", v["term"], len(v["log"]), v["commit"], v["applied"], v.get("base", 0), v.get("snapIdx", 0)) for k, v in sorted(nd.items())),
               "net=%d" % len(r["st"]["net"]))
